@@ -236,6 +236,18 @@ class Executor:
     def bool(self, name):
         return self.st.fresh_sym(name, BOOL, is_input=True)
 
+    def dim(self, name, lo=2):
+        """tensor dimension: a symbolic Int >= lo, or - when the engine re-runs
+        a task to confirm a counterexample on concrete sizes (sums unrolled
+        exactly) - a small concrete int, distinct per dimension name."""
+        cd = self.shared.concrete_dims
+        if cd is not None:
+            if name not in cd:
+                cd[name] = lo + len(cd)
+            return cd[name]
+        self.shared.used_dims.add(name)
+        return self.int(name, lo)
+
     def val(self, name, sort=C.VAL):
         return self.st.fresh_sym(name, sort, is_input=True)
 
